@@ -15,6 +15,8 @@ CONSTANTS
   SampleMod = 1
   SampleRes = 0
   NearMod = 1
+  SliceMod = 1
+  SliceRes = 0
   MaxEdits = 8
   MaxMRecs = 8
 INVARIANTS DerivedMatch DerivedMiss DerivedProps DExport
